@@ -340,6 +340,7 @@ func c03Wrapper(p *ana.Prog, r *ana.Result) {
 	}
 	name := ana.FuncName(fn)
 	found := 0
+	visited := map[*ssa.Function]bool{}
 	var visit func(g *ssa.Function)
 	visit = func(g *ssa.Function) {
 		for _, b := range g.Blocks {
@@ -369,6 +370,17 @@ func c03Wrapper(p *ana.Prog, r *ana.Result) {
 		}
 		for _, a := range g.AnonFuncs {
 			visit(a)
+		}
+		// a named worker started with `go worker(...)`
+		for _, b := range g.Blocks {
+			for _, in := range b.Instrs {
+				if gi, ok := in.(*ssa.Go); ok {
+					if f := gi.Call.StaticCallee(); f != nil && f.Blocks != nil && f.Pkg == fn.Pkg && !visited[f] {
+						visited[f] = true
+						visit(f)
+					}
+				}
+			}
 		}
 	}
 	visit(fn)
